@@ -79,7 +79,7 @@ Definition ops : list (string * (tree -> tree)) := [
   ("spec.capture_silent", fun t =>   (* [ops, events] *)
       ofB (capture_silent_b (tList tOp (tNth t 0)) (tList tEvent (tNth t 1))));
   ("spec.wf_hist", fun t =>   (* [cfg, table, ops] *)
-      ofB (wf_hist_b (t_truthy (tL (tNth t 1))) (tCfg (tNth t 0)) (tList tOp (tNth t 2))));
+      ofB (wf_hist_b (tCfg (tNth t 0)) (tList tOp (tNth t 2))));
   ("spec.exports_agree_at", fun t =>   (* [cfg, table, ops, events, k]: the exports at k, k+1, k+2 *)
       let c := tCfg (tNth t 0) in
       let h := tList tOp (tNth t 2) in
@@ -87,7 +87,7 @@ Definition ops : list (string * (tree -> tree)) := [
       let k := Z.to_nat (tZ (tNth t 4)) in
       let rendered := rendered_since_clear [] (firstn k h) (firstn k es) in
       let r i := ret_or_nil (nth (k + i) es (mkEv [] None)) in
-      ofB (wf_hist_b (t_truthy (tL (tNth t 1))) c h
+      ofB (wf_hist_b c h
            && exports_agree_b rendered (r 0%nat) (r 2%nat) (r 1%nat)));
   ("spec.balanced", fun t => ofB (balanced (tList tOp t)));
   ("visible", fun t => ofStr (visible (tStr t)));
